@@ -459,11 +459,26 @@ func c10Run(r *core.Run) {
 			{"hdr-root-without-crldp", func(h map[string][]string, key string) {
 				h[key] = []string{world.IssuerChainHeader(w.A.Tcb, w.A.ReissueRootSpec(func(s *world.CertSpec) { s.CRLDP = nil }))}
 			}},
+			// well-formed chains of the wrong shape: two certificates of the same kind, wrong order, wrong count
+			{"hdr-two-signers", func(h map[string][]string, key string) { h[key] = []string{world.IssuerChainHeader(w.A.Tcb, w.A.Tcb)} }},
+			{"hdr-intermediate-and-signer", func(h map[string][]string, key string) { h[key] = []string{world.IssuerChainHeader(w.A.Plat, w.A.Tcb)} }},
+			{"hdr-leaf-and-intermediate", func(h map[string][]string, key string) { h[key] = []string{world.IssuerChainHeader(w.P.PCK, w.A.Plat)} }},
+			{"hdr-two-roots", func(h map[string][]string, key string) { h[key] = []string{world.IssuerChainHeader(w.A.Root, w.A.Root)} }},
+			{"hdr-root-then-signer", func(h map[string][]string, key string) { h[key] = []string{world.IssuerChainHeader(w.A.Root, w.A.Tcb)} }},
+			{"hdr-one-certificate", func(h map[string][]string, key string) { h[key] = []string{world.IssuerChainHeader(w.A.Tcb)} }},
+			{"hdr-three-certificates", func(h map[string][]string, key string) { h[key] = []string{world.IssuerChainHeader(w.A.Tcb, w.A.Plat, w.A.Root)} }},
 		}
 		for _, route := range routes {
-			for _, resp := range c10Responses(t, w) {
+			resps := append(c10Responses(t, w), struct {
+				name string
+				body []byte
+			}{"genuine-body", nil})
+			for _, resp := range resps {
 				for _, hd := range hdrs {
-					if hd.name != "hdr-genuine" && resp.name != "random" && resp.name != "null-levels" {
+					if hd.name != "hdr-genuine" && resp.name != "random" && resp.name != "null-levels" && resp.name != "genuine-body" {
+						continue
+					}
+					if hd.name == "hdr-genuine" && resp.name == "genuine-body" {
 						continue
 					}
 					name := fmt.Sprintf("pcs:%s:%s:%s", route, resp.name, hd.name)
@@ -471,7 +486,9 @@ func c10Run(r *core.Run) {
 						continue
 					}
 					ep := orig[route].Clone()
-					ep.Body = resp.body
+					if resp.body != nil {
+						ep.Body = resp.body
+					}
 					for _, k := range core.SortedKeys(ep.Hdr) {
 						hd.f(ep.Hdr, k)
 					}
